@@ -2,6 +2,7 @@
 C02 - memoization is transparent: same outcome, body runs once per distinct call.
 """
 import datetime
+import os
 from typing import Union
 
 import numpy as np
@@ -444,15 +445,16 @@ def roundtrip(vi: int, mod: int, store: int, vi0: int):
 # ------------------------------------------------------------------------------------------------
 
 EXC_KINDS = ["builtin", "user-message-ctor", "user-two-arg-ctor", "user-no-arg-ctor", "local-class", "unimportable-module", "non-memoized",
-             "non-memoized-subclass", "nested-class"]
+             "non-memoized-subclass", "nested-class", "class-of-a-module-the-replaying-process-has-not-imported"]
 
 
 @obligation(
     "C02.exceptions",
     covers=("rebuilt-same-class", "fallback-memento-exception", "never-recorded"),
     split={"store": [0, 1, 3]},
-    bounds="9 exception kinds (builtin, user classes with 1-arg / 2-arg / 0-arg constructors, class local to a function, class in a module "
-           "that cannot be imported, NonMemoizedException and a subclass, nested class) x 5 messages (empty, plain, with ':' and newline, "
+    bounds="10 exception kinds (builtin, user classes with 1-arg / 2-arg / 0-arg constructors, class local to a function, class in a module "
+           "that cannot be imported, NonMemoizedException and a subclass, nested class, class of an importable module that the body imports "
+           "lazily and that is absent from sys.modules when the exception is replayed - as in a second process) x 5 messages (empty, plain, with ':' and newline, "
            "non-ASCII, with a lone surrogate) x {memory, fs, fs+cache}",
     variables="choice: kind, message, store",
     budget_s={"quick": 170, "thorough": 600},
@@ -490,8 +492,17 @@ def exceptions(kind: int, mi: int, store: int):
                 "    if k == 5: raise make_foreign()(msg)\n"
                 "    if k == 6: raise NonMemoizedException(msg)\n"
                 "    if k == 7: raise Sub(msg)\n"
+                "    if k == 9:\n"
+                "        import vpc02lazy\n"
+                "        raise vpc02lazy.LazyError(msg)\n"
                 "    raise Outer.Inner(msg)\n"
             )
+            import sys as _sys
+
+            with open(os.path.join(sb.root, "vpc02lazy.py"), "w") as fh:
+                fh.write("class LazyError(Exception):\n    pass\n")
+            _sys.path.insert(0, sb.root)
+            _sys.modules.pop("vpc02lazy", None)
             prog._KIND[0] = kind
             f = prog.f
 
@@ -505,8 +516,14 @@ def exceptions(kind: int, mi: int, store: int):
             e1 = call()
             check("first-call-raises", e1 is not None, None)
             n1 = len(prog.trace)
-            e2 = call()
             name = EXC_KINDS[kind]
+            if name.startswith("class-of-a-module"):
+                # the replaying process has not imported the module (the body, which would, does not run)
+                _sys.modules.pop("vpc02lazy", None)
+                import importlib
+
+                importlib.invalidate_caches()
+            e2 = call()
             if name.startswith("non-memoized"):
                 cover("never-recorded")
                 check("non-memoized-exception-not-recorded", f.memento(1) is None, None)
@@ -518,7 +535,11 @@ def exceptions(kind: int, mi: int, store: int):
             check("recorded-as-exception", mem is not None and mem.invocation_metadata.result_type is ResultType.exception, None)
             expect_msg = "fixed" if name == "user-no-arg-ctor" else (msg + "!" if name == "user-two-arg-ctor" else msg)
             rebuildable = name in ("builtin", "user-message-ctor", "nested-class")
-            if rebuildable:
+            if name.startswith("class-of-a-module"):
+                cover("rebuilt-same-class")
+                check("replayed-with-the-class-of-the-importable-module", (type(e2).__module__, type(e2).__qualname__) == ("vpc02lazy", "LazyError"),
+                      (type(e2).__module__, type(e2).__qualname__))
+            elif rebuildable:
                 cover("rebuilt-same-class")
                 check("replayed-with-same-class", type(e2) is type(e1), (repr(type(e2)), repr(type(e1))))
             else:
@@ -529,6 +550,11 @@ def exceptions(kind: int, mi: int, store: int):
             call()
             check("forget-makes-it-run-again", len(prog.trace) == n1 + 1, len(prog.trace))
         finally:
+            import sys as _sys2
+
+            if sb.root in _sys2.path:
+                _sys2.path.remove(sb.root)
+            _sys2.modules.pop("vpc02lazy", None)
             prog.close()
             sb.close()
 
